@@ -155,13 +155,15 @@ def o_trace(P, dims):
 # ---------------------------------------------------------------------------------
 # symbolic building blocks
 # ---------------------------------------------------------------------------------
-def sparse_matrix(inp, name, D, shift):
-    """generalised permutation with symbolic weights + one concrete extra entry: keeps
-    polynomial sizes small, still non-commuting and asymmetric"""
+def sparse_matrix(inp, name, D, shift, extra=True):
+    """generalised permutation with symbolic weights (+ one concrete extra entry unless
+    extra=False): keeps polynomial sizes small, still non-commuting and asymmetric"""
     t = inp.const(np.zeros((D, D)))
     v = inp.arr(name, (D,))
     for i in range(D):
         t[i, (i + shift) % D] = v[i]
+    if not extra:
+        return t
     if shift % D != 0:
         t[0, 0] = inp.one()
     else:
@@ -177,8 +179,8 @@ def make_gate(inp, name, dl, dr, chi, kind="dense"):
     gl = inp.const(np.zeros((Dl, Dl, chi)))
     gr = inp.const(np.zeros((chi, Dr, Dr)))
     for c in range(chi):
-        gl[:, :, c] = sparse_matrix(inp, "%sl%d" % (name, c), Dl, shift=1 + c)
-        gr[c, :, :] = sparse_matrix(inp, "%sr%d" % (name, c), Dr, shift=2 + c)
+        gl[:, :, c] = sparse_matrix(inp, "%sl%d" % (name, c), Dl, shift=1 + c, extra=(kind == "sparse"))
+        gr[c, :, :] = sparse_matrix(inp, "%sr%d" % (name, c), Dr, shift=2 + c, extra=(kind == "sparse"))
     return gl, gr
 
 
@@ -205,7 +207,8 @@ def make_pt(inp, name, d, N, bond, rank=4, kind="dense"):
             M = inp.const(np.zeros((bl, br, D, D)))
             for a in range(bl):
                 for b in range(br):
-                    M[a, b] = sparse_matrix(inp, "%sM%d_%d%d" % (name, k, a, b), D, shift=(1 + a + 2 * b + k) % D)
+                    M[a, b] = sparse_matrix(inp, "%sM%d_%d%d" % (name, k, a, b), D, shift=(1 + a + 2 * b + k) % D,
+                                            extra=(kind == "sparse"))
             full = M
         pt.set_mpo_tensor(k, M)
         eff.append(full)
@@ -290,8 +293,19 @@ def fake_concurrent(chooser):
     return mod
 
 
-def perm_from_index(k, idx):
-    """idx (python int or SI in 0..k!-1) -> the idx-th permutation of range(k).
-    A symbolic idx is concretised by path forking (one path per permutation)."""
-    perms = list(itertools.permutations(range(k)))
-    return perms[int(idx)] if not isinstance(idx, SI) else perms[idx.concretise()]
+def choose_permutation(inp, k, name):
+    """run order of k tasks as a harness input: a sequence of boolean inputs `name_i_j`
+    ("the next task to run is the j-th of the remaining ones").  In symbolic mode every
+    decision forks the path, so all k! orders are explored; the booleans (not integers)
+    keep the proof obligations in pure real arithmetic."""
+    remaining = list(range(k))
+    perm = []
+    while len(remaining) > 1:
+        pick = len(remaining) - 1
+        for j in range(len(remaining) - 1):
+            if inp.bool("%s_%d_%d" % (name, len(perm), j)):
+                pick = j
+                break
+        perm.append(remaining.pop(pick))
+    perm.extend(remaining)
+    return tuple(perm)
